@@ -3,6 +3,7 @@ import Bifrost.Gen.Limits
 import Bifrost.Gen.Directives
 import Bifrost.Lemmas.Incoming
 import Bifrost.Props.C07
+import Bifrost.Lemmas.FramingEnd
 /-!
 C07, dispatch clause — "Headers that are empty, oversized, truncated, not decodable, or carry an
 invalid protocol ID close the stream without being dispatched, and the handler lookup for an
@@ -371,5 +372,33 @@ example : ([[], [[0, 1, 2, 3]], [[0xa1, 0x8d, 0x06, 1]], [[5, 0x0a, 3], [0x61]],
 example : (handleIncomingStream limit ⟨[1], [2], 7⟩ [[3, 0x0a, 1, 0x61]] .handlerErr).closed = true ∧
     (handleIncomingStream limit ⟨[1], [2], 7⟩ [[3, 0x0a, 1, 0x61]] .handlerErr).delivered ≠ none ∧
     (handleIncomingStream limit ⟨[1], [2], 7⟩ [[3, 0x0a, 1, 0x61]] .wrongType).delivered = none := by decide
+
+/-! ### The read that ends the stream
+
+`handleIncomingStreamE … lastWithErr` is `HandleIncomingStream` on a stream whose `Read` may hand
+out the final bytes together with the error (`n > 0, io.EOF`). -/
+
+/-- The outcome (directive, delivery, closed) does not depend on whether the stream reports its
+end by a read of its own or by the read returning its last bytes — all links, lookup answers,
+streams and chunkings. With `dispatched_iff_wellFormed`: a complete header ending the stream is
+dispatched, a truncated one is closed without dispatch, either way. -/
+theorem dispatch_end_mode_independent (max : Nat) (lnk : Link) (cs : Reader) (lastWithErr : Bool)
+    (env : Lookup) :
+    handleIncomingStreamE max lnk cs lastWithErr env = handleIncomingStream max lnk cs env :=
+  handleIncomingStreamE_eq max lnk cs lastWithErr env
+
+/-- …so dispatch ⇔ well-formed holds for such streams as well. -/
+theorem dispatched_iff_wellFormed_any_end (max : Nat) (lnk : Link) (cs : Reader) (lastWithErr : Bool)
+    (env : Lookup) (d : Directive) :
+    (handleIncomingStreamE max lnk cs lastWithErr env).dispatched = some d ↔
+      ∃ pid rest, WellFormed max cs.flatten pid rest ∧
+        d = { protocolID := pid, localPeerID := lnk.localPeer, remotePeerID := lnk.remotePeer } := by
+  rw [dispatch_end_mode_independent]
+  exact dispatched_iff_wellFormed max lnk cs env d
+
+/-- Non-vacuity: header + FIN in one read is delivered; one byte short is closed undispatched. -/
+example : (handleIncomingStreamE limit ⟨[1], [2], 7⟩ [[3, 0x0a, 1, 0x61]] true .accepts).closed = false ∧
+    handleIncomingStreamE limit ⟨[1], [2], 7⟩ [[3, 0x0a], [1]] true .accepts
+      = { dispatched := none, delivered := none, closed := true } := by decide
 
 end Bifrost.Props.C07Dispatch
